@@ -29,6 +29,7 @@ import (
 	"strings"
 	"sync"
 	"sync/atomic"
+	"time"
 
 	"github.com/gauss-project/aurorafs/pkg/boson"
 	"github.com/gauss-project/aurorafs/pkg/file/joiner"
@@ -451,7 +452,29 @@ func (r *runner) run(sc kit.Scenario, rng *rand.Rand) (evs []kit.Ev, err error) 
 			if name == "download" {
 				url += "?targets=" + r.src.Addr.String()
 			}
+			// miss: the remote source is a partial holder for the time of this download (its pyramid is intact, one
+			// data chunk is absent from its store); the chunk is put back afterwards
+			hidden := false
+			if miss := kit.Str(op, "miss"); name == "download" && miss != "" && miss != "none" {
+				cname := fd.Data[0]
+				if miss == "datalast" {
+					cname = fd.Data[len(fd.Data)-1]
+				}
+				ev["miss"], ev["missc"] = miss, cname
+				if maddr, ok := r.cat.addrOf(cname); ok {
+					srcHide.Store(maddr.String())
+					hidden = true
+				}
+			}
 			code, body := b.Do(http.MethodGet, url, hdr, nil)
+			if hidden {
+				// the chunk stays absent at the source until the node is quiet (retries of the retrieval loop must not find it)
+				r.board.WaitHandlers(20 * time.Second)
+				time.Sleep(50 * time.Millisecond)
+				r.board.WaitHandlers(20 * time.Second)
+				b.Settle()
+				srcHide.Store("")
+			}
 			ev["sel"], ev["code"] = sel, code
 			ev["ok"] = (code == 200 || code == 206) && bytes.Equal(body, fd.Content[lo:hi+1])
 		case "pin":
@@ -647,6 +670,18 @@ func runChunks(scs []kit.Scenario, out *kit.Out) error {
 	return nil
 }
 
+// srcHide names one chunk address the source node's retrieval handler does not find (a partial holder); "" = none.
+var srcHide atomic.Value
+
+type hideStorer struct{ storage.Storer }
+
+func (h *hideStorer) Get(ctx context.Context, mode storage.ModeGet, addr boson.Address) (boson.Chunk, error) {
+	if v, _ := srcHide.Load().(string); v != "" && v == addr.String() {
+		return nil, storage.ErrNotFound
+	}
+	return h.Storer.Get(ctx, mode, addr)
+}
+
 func main() {
 	if len(os.Args) >= 2 && os.Args[1] == "exec" {
 		kit.Main(runChunks)
@@ -664,7 +699,8 @@ func main() {
 			return fmt.Errorf("catalogue: %w", err)
 		}
 		board := swb.NewBoard()
-		src, err := nodelite.New(board, addrRand(rand.New(rand.NewSource(seed+7))), "", nil, logger)
+		src, err := nodelite.NewWithOptions(board, addrRand(rand.New(rand.NewSource(seed+7))), "", nil, logger,
+			nodelite.Options{WrapStorer: func(st storage.Storer) storage.Storer { return &hideStorer{Storer: st} }})
 		if err != nil {
 			return err
 		}
